@@ -56,7 +56,7 @@ func (d RlDoc) text(origin, dir string, prev string) string {
 	}
 	caches := []string{}
 	for _, id := range d.Caches {
-		caches = append(caches, fmt.Sprintf(`{"id":"%s","path":"%s","size":"10MB"}`, id, filepath.Join(dir, "cache-"+id)))
+		caches = append(caches, fmt.Sprintf(`{"id":"%s","path":"%s","size":"64KB"}`, id, filepath.Join(dir, "cache-"+id)))
 	}
 	cs := "[" + strings.Join(caches, ",") + "]"
 	switch d.Damage {
@@ -93,7 +93,7 @@ func (c *reloadCase) Sx() sx.V {
 	for _, d := range c.Docs {
 		plan = append(plan, sx.L(sx.I(int64(d.Ver)), sx.Strs(d.Caches), sx.S(d.Damage)))
 	}
-	return sx.L(sx.S("reload"), sx.L(docs...), sx.L(probes...), sx.Strs(bad), sx.L(sx.L(sx.S(""), sx.I(0)), sx.L(sx.S("10MB"), sx.I(10*1024*1024)), sx.L(sx.S("1MB"), sx.I(1024*1024))),
+	return sx.L(sx.S("reload"), sx.L(docs...), sx.L(probes...), sx.Strs(bad), sx.L(sx.L(sx.S(""), sx.I(0)), sx.L(sx.S("64KB"), sx.I(64*1024)), sx.L(sx.S("1MB"), sx.I(1024*1024))),
 		sx.Strs(rlCacheIds), sx.L(plan...), sx.S(c.origin))
 }
 
@@ -125,8 +125,14 @@ func (o *originStub) ServeHTTP(w http.ResponseWriter, r *http.Request) {
 	o.mu.Unlock()
 	w.Header().Set("Cache-Control", "max-age=3600")
 	w.Header().Set("Content-Type", "text/plain")
-	w.Header().Set("Content-Length", "6")
-	w.Write([]byte("origin"))
+	if strings.Contains(r.URL.Path, "/big-") {
+		w.Header().Set("Content-Length", "16384")
+		w.Write(make([]byte, 16384))
+		return
+	}
+	// whole KiB everywhere: the limiter's accounting is exact then (finding F14 otherwise)
+	w.Header().Set("Content-Length", "1024")
+	w.Write(make([]byte, 1024))
 }
 
 func (c *reloadCase) Run() (sx.V, error) {
@@ -264,6 +270,32 @@ func (c *reloadCase) Run() (sx.V, error) {
 		}
 		outs = append(outs, a)
 	}
+	// the caches in force are limited like after a restart: fill each past its 64 KB, keep it in use
+	// for more than one limiter period, and look at the directory
+	last := outs[len(outs)-1]
+	limits := []sx.V{}
+	if last.N(0).Str() == "alive" {
+		have := last.N(3).StrList()
+		for _, id := range have {
+			for k := 0; k < 8; k++ {
+				rawRequest(addr, Req{Method: "GET", Host: addr, Target: fmt.Sprintf("/cache-%s/big-%d", id, k)})
+			}
+		}
+		for k := 0; k < 8 && len(have) > 0; k++ {
+			time.Sleep(time.Second)
+			for _, id := range have {
+				rawRequest(addr, Req{Method: "GET", Host: addr, Target: fmt.Sprintf("/cache-%s/big-0", id)})
+			}
+		}
+		for _, id := range have {
+			var total int64
+			for _, e := range listFiles(filepath.Join(dir, "cache-"+id)).L {
+				total += e.N(1).Int()
+			}
+			limits = append(limits, sx.L(sx.S(id), sx.I(total)))
+		}
+	}
+	outs = append(outs, sx.L(sx.S("limits"), sx.L(limits...)))
 	return sx.L(outs...), nil
 }
 
